@@ -17,10 +17,11 @@ for b in seeded_benign/*/; do
     # deterministic sample
     h=$(echo "$bid$mid" | md5sum | cut -c1-2); [ $((16#$h % 6)) = 0 ] || continue
     cat $b/patch.diff > /tmp/combo.diff
-    (cd /repo && git apply $b/patch.diff 2>/dev/null && git apply --check /verif/$m/patch.diff 2>/dev/null); ok=$?
+    (cd /repo && git apply /verif/$b/patch.diff 2>/dev/null && git apply --check /verif/$m/patch.diff 2>/dev/null); ok=$?
     if [ $ok = 0 ]; then (cd /repo && git apply /verif/$m/patch.diff && git diff > /tmp/combo.diff; git ls-files --others --exclude-standard | grep -v '^target' | while read f; do git add -N "$f"; done; git diff > /tmp/combo.diff; git reset -q; git checkout -- . ; git clean -fdq --exclude=target); else (cd /repo && git checkout -- . && git clean -fdq --exclude=target); continue; fi
     out=$(tools/try_mutant.sh /tmp/combo.diff $prop 2>&1 | head -1)
     n=$((n+1))
+    if echo "$out" | grep -q "EXTRACT FAILED"; then echo "skip $mid on $bid (combination does not compile)"; n=$((n-1)); continue; fi
     if echo "$out" | grep -q "$prop rc=1"; then echo "ok   $mid on $bid"; else echo "MISS $mid on $bid: $out"; miss=$((miss+1)); fi
     [ $n -ge $MAX ] && break 2
   done
